@@ -506,6 +506,13 @@ func (dec *Decoder) initFrame() error {
 	for i := range dec.intraT {
 		dec.intraT[i] = BDCPred
 	}
+	// The left intra-mode context must start clean as well (libwebp calls
+	// VP8InitScanline when it sets up the frame): a pooled decoder whose
+	// previous decode stopped with an error mid-row would otherwise parse the
+	// first row of the next picture with stale left modes.
+	for i := range dec.intraL {
+		dec.intraL[i] = BDCPred
+	}
 	off += intraTSize
 
 	dec.yuvB = slab[off : off+yuvBSize]
